@@ -128,6 +128,13 @@ def classes():
                     return h(self, r)
                 return None
 
+            if not is_server:
+                def onConnecting(self, transport_details):
+                    h = (self.hooks or {}).get("connecting")
+                    if h:
+                        return h(self, transport_details)
+                    return base.onConnecting(self, transport_details)
+
             def onOpen(self):
                 self._r("onOpen")
 
